@@ -616,6 +616,32 @@ func runGS(args []string) []string {
 		param := &csr.ReqParam{NamespacePolicy: pol, HandlerName: "regular", ClientIP: string(hx.UnHex(r["ip"])), LogName: logname,
 			ReqUser: string(hx.UnHex(r["ru"])), ReqHost: string(hx.UnHex(r["rh"])), TransID: string(hx.UnHex(r["tid"])),
 			Attrs: &message.Attributes{HardKey: r["hk"] == "1", CAPubKeyAlgo: x509.PublicKeyAlgorithm(algo)}}
+		// what else the client may claim in its request: none of it may reach the signing request
+		for _, c := range strings.Split(r["cl"], "+") {
+			switch c {
+			case "ff":
+				if param.Attrs.TouchlessSudo == nil {
+					param.Attrs.TouchlessSudo = &message.TouchlessSudo{}
+				}
+				param.Attrs.TouchlessSudo.IsFirefighter = true
+			case "sudo":
+				if param.Attrs.TouchlessSudo == nil {
+					param.Attrs.TouchlessSudo = &message.TouchlessSudo{}
+				}
+				param.Attrs.TouchlessSudo.Hosts, param.Attrs.TouchlessSudo.Time = "h1,h2", 30
+			case "t2s":
+				param.Attrs.Touch2SSH = true
+			case "ver":
+				param.Attrs.IfVer, param.Attrs.SSHClientVersion = 7, "9.9"
+			case "user":
+				param.Attrs.Username, param.Attrs.Hostname = "root", "bastion"
+			case "exts":
+				param.Attrs.Exts = map[string]interface{}{"isFirefighter": true, "prins": []interface{}{"root"}, "validity": 999999, "isHWKey": true, "touchPolicy": 3}
+			case "sig":
+				param.Attrs.SignatureAlgo = x509.SHA1WithRSA
+				param.SignatureAlgo = x509.SHA1WithRSA
+			}
+		}
 		var csrs []string
 		signer := &ssigner{nm: nm, tr: &tr, csrs: &csrs, certN: &certN}
 		if r["ca"] != "-" {
